@@ -260,6 +260,35 @@ pub fn units() -> Vec<Unit> {
             imports: vec![],
         },
         Unit {
+            module: "RsRevIter",
+            file: "sourceview.rs",
+            fns: vec![
+                Item::Opaque("SourceView"),
+                Item::Extern("is_id_start_unicode", "fn(char) -> bool"),
+                Item::Extern("is_id_continue_unicode", "fn(char) -> bool"),
+                Item::ExternMethod("SourceView", "get_line", "SourceView_get_line", "fn(&SourceView, u32) -> Option<&str>"),
+                Item::MethodRewritten(
+                    "RevTokenIter",
+                    "next",
+                    "rev_token_iter_next",
+                    "sv: &SourceView, cur: &mut Option<Token>, cache: &mut Option<(&str, usize, usize, usize)>",
+                    "Option<(Token, Option<&str>)>",
+                    &[
+                        ("let token = self.token.take()?;", "let token = (*cur)?; *cur = None;"),
+                        ("self.token = token.sm.get_token(idx - 1);", "*cur = token.sm.get_token(idx - 1);"),
+                        (
+                            "if_chain! { if let Some((source_line, dst_line, last_char_offset, last_byte_offset)) = self.source_line; if dst_line == token.get_dst_line() as usize; then { (source_line, last_char_offset, last_byte_offset) } else { if let Some(source_line) = self.sv.get_line(token.get_dst_line()) { (source_line, !0, !0) } else { (\"\", !0, !0) } } }",
+                            "if let Some((source_line, dst_line, last_char_offset, last_byte_offset)) = *cache { if dst_line == token.get_dst_line() as usize { (source_line, last_char_offset, last_byte_offset) } else { if let Some(source_line) = sv.get_line(token.get_dst_line()) { (source_line, !0, !0) } else { (\"\", !0, !0) } } } else { if let Some(source_line) = sv.get_line(token.get_dst_line()) { (source_line, !0, !0) } else { (\"\", !0, !0) } }",
+                        ),
+                        ("self.source_line = Some", "*cache = Some"),
+                        ("self.source_line = None;", "*cache = None;"),
+                        ("source_line.get(byte_offset..).and_then(get_javascript_token)", "match source_line.get(byte_offset..) { Some(rest) => get_javascript_token(rest), None => None }"),
+                    ],
+                ),
+            ],
+            imports: vec!["RsUtils", "RsTypes", "RsJsIdent"],
+        },
+        Unit {
             module: "RsPrefix",
             file: "types.rs",
             fns: vec![Item::Method("SourceMap", "prefix_source")],
